@@ -27,7 +27,9 @@ RULE = (
     "(edges/points), project_edge, project_corner, add_geometry, merge_patches, set_default_patch, modify_patch, "
     "settings[...], delete (also single blocks of round shapes and spheres), in random order with mesh.add anywhere; "
     "then optionally assemble / clear+assemble / backport / a first write, and write(path, debug_path); half of the "
-    "programs are placed 1e3..4e6 away from the origin. The file is parsed "
+    "programs are placed 1e3..4e6 away from the origin; a third of the programs render the same objects a second "
+    "time without 1-2 operations (delete + clear + write, or a new Mesh with the mesh-level statements replayed) and "
+    "that file is judged against the model of the remaining part. The file is parsed "
     "by vf.foamdict and compared section by section with the script-level model kept by the harness "
     "(vf.x_script.interpret). Non-trivial: >= 2 blocks written and >= 3 statements of >= 2 kinds; distinct = "
     "distinct generated program."
@@ -45,6 +47,8 @@ ASSUMPTIONS = [
     "edges section (C07's business) is only checked for valid labels, real block edges and defined geometries",
     "counts: chops are count-only (or count + c2c on single blocks); families are recomputed from the file's labels",
     "a geometry name declared twice may be written with either declaration",
+    "second rendering: the declared model of the remaining operations is unchanged by the first assembly (assembling "
+    "does not alter the user's objects); every operation touched by it is chopped in all directions",
     "modify_patch on a name that owns no face of a surviving operation is not executed (outcome not specified)",
     "Hemisphere: only shape-level patches, zones and corner projections are scripted (its lofts share Face objects)",
     "a script built from valid arguments must run and write; an exception is reported as script-failed / write-failed",
@@ -106,6 +110,7 @@ class Checker:
                 chops = run.ops[x].chops[ax]
                 if chops:
                     self.declared[(x, ax)] = sum(int(c.count) for c in chops)
+        self.declared_all = dict(self.declared)
         self.sphere_labels = {}
         for e, ent in enumerate(case["entities"]):
             if ent["kind"] == "hemisphere":
@@ -138,6 +143,51 @@ class Checker:
             self.fail("unparsable", f"written file does not parse: {ex}")
         self.vtk_text = vtk
         self.run_obj = run
+
+    def second_stage(self) -> bool:
+        """The same objects rendered again without some operations (case["stage2"]); afterwards self.model / self.bmd /
+        self.declared describe that second file.  The model is the one of the script + the extra deletions."""
+        st2 = self.case.get("stage2")
+        if not st2:
+            return False
+        case, run = self.case, self.run_obj
+        drop = [tuple(x) for x in st2["drop"]]
+        case2 = dict(case, script=list(case["script"]) + [{"do": "delete", "ent": e, "op": i} for e, i in drop])
+        self.model = m = xsc.interpret(case2, self.points)
+        self.f["stage"] = "second:" + st2["kind"]
+        try:
+            if st2["kind"] == "delete+clear":
+                mesh = run.mesh
+                for x in drop:
+                    mesh.delete(run.ops[x])
+                mesh.clear()
+            else:
+                import classy_blocks as cb
+
+                mesh = cb.Mesh()
+                xsc.run_script(case, run, m.skip_modify, mesh=mesh, drop=drop)
+        except Exception as ex:
+            self.fail("script-failed", f"second rendering raised {type(ex).__name__}: {ex}", stage="second")
+        self.declared = {k: v for k, v in self.declared_all.items() if k[0] in set(m.order)}
+        try:
+            text, vtk = lt.write_text(mesh, debug=True)
+        except Exception as ex:
+            self.fail("write-failed", f"second write raised {type(ex).__name__}: {ex}")
+        try:
+            self.bmd = lt.parse(text)
+        except FoamParseError as ex:
+            self.fail("unparsable", f"second file does not parse: {ex}")
+        self.vtk_text = vtk
+        self.sphere_face_label = {}
+        return True
+
+    def check_all(self) -> None:
+        self.check_settings()
+        self.check_blocks_and_vertices()
+        self.check_counts()
+        self.check_patches()
+        self.check_faces_and_geometry()
+        self.check_vtk()
 
     # ---- oracles -------------------------------------------------------------------------------
 
@@ -411,13 +461,17 @@ def _sphere_matches(props: List[List[str]], centre: np.ndarray, radius: float, h
 def check_program(case, ctx: Ctx) -> None:
     ck = Checker(case, ctx)
     ck.run()
-    ck.check_settings()
-    ck.check_blocks_and_vertices()
-    ck.check_counts()
-    ck.check_patches()
-    ck.check_faces_and_geometry()
-    ck.check_vtk()
-    m = ck.model
+    ck.check_all()
+    m, users, bmd = ck.model, ck.users, ck.bmd
+    if ck.second_stage():
+        ck.check_all()
+        ctx.label("stage2:" + case["stage2"]["kind"])
+        if any(v.projected_to for v in ck.bmd.vertices):
+            ctx.label("stage2-with-projected-vertex")
+        lost = {x for x in m.order if x not in ck.model.order}
+        if any(m.corner_labels[x].get(k) for u in users.values() if len({y for y, _ in u}) >= 2 for x, k in u if x in lost):
+            ctx.label("stage2-drops-a-neighbour-with-corner-projection")
+    ck.model, ck.users, ck.bmd = m, users, bmd
     kinds = [k for k in m.kinds_used if k != "add"]
     ctx.nt(len(m.order) >= 2 and len(kinds) >= 3 and len(set(kinds)) >= 2)
     ctx.label(*sorted({"stmt:" + k for k in kinds}))
@@ -449,15 +503,15 @@ def check_program(case, ctx: Ctx) -> None:
 SIMPLE = ["box", "box", "cluster", "cluster", "cluster", "extrude", "revolve", "wedge", "stacked"]
 
 CELLS = [
-    Cell("C06/program/simple", xsc.program(kinds=SIMPLE, max_entities=3, max_statements=10), check_program, 700, 20000,
+    Cell("C06/program/simple", xsc.program(kinds=SIMPLE, max_entities=3, max_statements=10), check_program, 600, 20000,
          "single-block operations, lattice clusters of Lofts and merged stacked boxes"),
     Cell("C06/program/shapes", xsc.program(kinds=["cylinder", "ring", "hemisphere", "stack", "stack"], max_entities=2, max_statements=8),
-         check_program, 200, 6000, "Cylinder / ExtrudedRing / Hemisphere / ExtrudedStack(Grid) incl. shape-level patches and zones"),
-    Cell("C06/program/mixed", xsc.program(max_entities=3, max_statements=10), check_program, 250, 7000,
+         check_program, 180, 6000, "Cylinder / ExtrudedRing / Hemisphere / ExtrudedStack(Grid) incl. shape-level patches and zones"),
+    Cell("C06/program/mixed", xsc.program(max_entities=3, max_statements=10), check_program, 220, 7000,
          "all entity kinds mixed"),
     Cell("C06/program/projections", xsc.program(kinds=["cluster"], max_entities=2, max_statements=10, allow_delete=False,
                                                 only=["project_corner", "project_side", "project_corner", "set_patch"]),
-         check_program, 400, 12000, "clusters of Lofts with many corner/side projections on shared corners and faces"),
+         check_program, 350, 12000, "clusters of Lofts with many corner/side projections on shared corners and faces"),
     Cell("C06/witness/sphere-copy", xsc.program(kinds=["hemisphere"], max_entities=1, max_statements=3, sphere_copy=True),
          check_program, 6, 60, "Hemisphere(...).copy(): the geometry its sides project to must be defined (ledger F15)"),
 ]
